@@ -129,7 +129,8 @@ def c08(tier, repo=None):
     seqc, srun = streams.gen_seq_cases(seq_ok[:P["seq_shapes"]], SEQ_CONSTS, num=P["seq_num"], depth=16, seed=vlib.SEED, workers=2, timeout=900)
     log("  %d sequential histories sampled by TLC (StreamsSeq -simulate, %.0fs)" % (len(seqc), srun.wall_s))
     concc = streams.conc_cases(shapes, rnd, P["conc"])
-    cases = seqc + concc
+    directed = streams.merge_close_cases(15 if tier == "quick" else 40)
+    cases = seqc + directed + concc
     case_by_id = {c["id"]: c for c in cases}
     lines, _, wall_go, _ = streams.run_schema(cases, repo=repo)
     log("  ran %d cases on the real package (%d trace lines, %.0fs)" % (len(cases), len(lines), wall_go))
@@ -319,13 +320,11 @@ def c19(tier, repo=None):
         gstats.append({"mode": mode, "nodes": n, "max_edges": me, "scenario_shapes": len(fam), "tlc_generated": run.generated,
                        "exhaustive_enumeration": False, "replayed": len(fam)})
         scs += fam
-    # fan-in order comes from map iteration: scenarios with a fan-in of >= 2 edges are run three times
+    # fan-in order comes from map iteration: scenarios with >= 2 streaming sources merged at END are run up to three times
     def fanin(x):
-        cnt = {}
-        for a, b in x["edges"]:
-            cnt[b] = cnt.get(b, 0) + 1
-        return any(v >= 2 for v in cnt.values())
-    scs = scs + [x for x in scs if fanin(x)] * 2
+        ends = [a for a, b in x["edges"] if b == "end"]
+        return sum(1 for n, k in zip(x["nodes"], x["kinds"]) if n in ends and k != "V") >= 2
+    scs = scs + ([x for x in scs if fanin(x)] * 2)[:P["per_mode"]]
     cases = streams.decorate_run(scs, rnd, prefix="L")
     by_id = {c["id"]: c for c in cases}
     log("  %d streaming-run scenarios (TLC StreamRun, %d states): %s" % (len(cases), gen_states, ", ".join("%s/%d:%d" % (g["mode"], g["nodes"], g["scenario_shapes"]) for g in gstats)))
@@ -348,18 +347,23 @@ def c19(tier, repo=None):
     if bad:
         # order-dependent leaks (fan-in order comes from map iteration, select is random): re-run each rejected scenario REPRO19 times;
         # it counts if ANY re-run is rejected for the same reason -- a leak that happens in some runs is a leak
-        cand = list(bad)[:12]
-        again = [dict(by_id[cid], id="%s#r%d" % (cid, k)) for cid in cand for k in range(REPRO19)]
-        lines2, _ = streams.run_leak(again, repo=repo)
-        bad2, _, _ = judge19(lines2)
-        idx2 = streams.index_cases(lines2)
-        for cid in cand:
-            hits = [k for k in bad2 if k.split("#")[0] == cid and bad2[k] == bad[cid]]
-            if hits:
-                confirmed.append((cid, bad[cid], idx2[hits[0]][1]))
-            else:
-                unrepro += 1
-                log("  note: rejection of %s (%s) did not reproduce in %d re-runs: not counted" % (cid, bad[cid], REPRO19))
+        cand = list(bad)[:4]
+        left = list(cand)
+        for batch, reps in enumerate((3, REPRO19 - 3)):
+            if not left:
+                break
+            again = [dict(by_id[cid], id="%s#r%d_%d" % (cid, batch, k)) for cid in left for k in range(reps)]
+            lines2, _ = streams.run_leak(again, repo=repo)
+            bad2, _, _ = judge19(lines2)
+            idx2 = streams.index_cases(lines2)
+            for cid in list(left):
+                hits = [k for k in bad2 if k.split("#")[0] == cid and bad2[k] == bad[cid]]
+                if hits:
+                    confirmed.append((cid, bad[cid], idx2[hits[0]][1]))
+                    left.remove(cid)
+        for cid in left:
+            unrepro += 1
+            log("  note: rejection of %s (%s) did not reproduce in %d re-runs: not counted" % (cid, bad[cid], REPRO19))
     for cid, reason, obs in confirmed:
         verdict.violation(classify19(by_id[cid], reason, obs), {"scenario": by_id[cid], "trace": obs}, reason)
     code, n_new, n_known = verdict.finish()
